@@ -11,3 +11,6 @@ pub assume_specification<T>[Option::<T>::or](a: Option<T>, b: Option<T>) -> (r: 
     ensures r == (if a is Some { a } else { b });
 pub assume_specification<T>[Option::<T>::replace](o: &mut Option<T>, value: T) -> (r: Option<T>)
     ensures r == *old(o), *final(o) == Some(value);
+// core::mem::replace (ASSUMED from std: moves `src` into `dest`, returns what was there)
+pub assume_specification<T>[core::mem::replace::<T>](dest: &mut T, src: T) -> (r: T)
+    ensures *final(dest) == src, r == *old(dest);
